@@ -148,6 +148,11 @@ def generate(tier):
         r_ = underscorify(c)
         if r_:
             cases.append(r_)
+        from .common import localsify
+        for sch in (0, 1):
+            r_ = localsify(c, sch)
+            if r_:
+                cases.append(r_)
     # unions (fields must be Copy; only `Copy, Clone` is documented)
     for n in (1, 2, 3):
         sh = S.Shape('union', [S.Fields('n', n)])
